@@ -83,7 +83,8 @@ pub open spec fn scalar_ok(a: AVal) -> bool {
         AVal::Date { dir, .. } => (dir as u32) <= 0xff,
         AVal::Res { .. } => true,
         AVal::NoValue => true,
-        AVal::Other { tag, data } => !is_decoded_tag(tag) && data.len() <= 0xffff,
+        AVal::Other { tag, data } => !is_decoded_tag(tag) && 0x10 <= tag <= 0x4a && tag != T_BEGCOLLECTION && tag != T_ENDCOLLECTION
+            && data.len() <= 0xffff,
         _ => false,
     }
 }
@@ -215,6 +216,236 @@ pub proof fn lemma_delim(d: u8, rest: Seq<u8>, s: MState)
         d == 0x03 ==> m_run(s1(d) + rest, s) == Some((m_delim(s, delimiter_tag_of(d as int).unwrap()), rest)),
 {
     lemma_s1(d, rest);
+}
+
+
+// ------------------------------------------------------------------ values through the machine (L3)
+
+/// begin an attribute named `name` (non-empty) or continue the current one (empty name)
+pub open spec fn start_attr(s: MState, name: Seq<char>) -> MState {
+    if name.len() > 0 {
+        let f = m_flush(s);
+        MState { groups: f.groups, cur: f.cur, name: Some(str_of(name)), stack: f.stack }
+    } else {
+        s
+    }
+}
+
+/// append values to the list on top of the stack
+pub open spec fn push_top(s: MState, vs: Seq<AVal>) -> MState {
+    MState { groups: s.groups, cur: s.cur, name: s.name, stack: s.stack.update(s.stack.len() - 1, s.stack.last() + vs) }
+}
+
+/// the values a value contributes to the list it is read into
+pub open spec fn vals_of(a: AVal) -> Seq<AVal> {
+    match a {
+        AVal::Set { elems } => elems,
+        _ => seq![a],
+    }
+}
+
+/// map built from the first `n` members, later ones replacing earlier ones
+pub open spec fn members_map(members: Seq<(String, AVal)>, n: nat) -> Map<String, AVal>
+    decreases n
+{
+    if n == 0 || n > members.len() {
+        Map::<String, AVal>::empty()
+    } else {
+        members_map(members, (n - 1) as nat).insert(members[n - 1].0, members[n - 1].1)
+    }
+}
+
+/// The domain of C01 at value level: all kinds of the public value model, every name and value within the
+/// 16-bit wire length, sets of >= 2 non-set elements, the member-name kind only outside collections,
+/// collections (any depth) whose member list is the canonical listing of a map with distinct names.
+pub open spec fn dom_ok(a: AVal, in_coll: bool) -> bool
+    decreases a
+{
+    match a {
+        AVal::Set { elems } => elems.len() >= 2 && forall|i: int| 0 <= i < elems.len() ==>
+            !((#[trigger] elems[i]) is Set) && dom_ok(elems[i], in_coll),
+        AVal::Coll { members } => a == coll_of(members_map(members, members.len()))
+            && (forall|i: int, j: int| 0 <= i < j < members.len() ==> (#[trigger] members[i]).0 != (#[trigger] members[j]).0)
+            && forall|i: int| 0 <= i < members.len() ==> utf8((#[trigger] members[i]).0@).len() <= 0xffff && dom_ok(members[i].1, true),
+        AVal::Text { tag, .. } => scalar_ok(a) && (in_coll ==> tag != T_MEMBERNAME),
+        _ => scalar_ok(a),
+    }
+}
+
+/// preconditions on the machine state for reading an attribute / additional value / member value
+pub open spec fn state_ok(s: MState, name: Seq<char>) -> bool {
+    &&& s.stack.len() >= 1
+    &&& (name.len() > 0 ==> s.stack.len() == 1)
+    &&& (name.len() == 0 ==> s.name is Some)
+    &&& utf8(name).len() <= 0xffff
+}
+
+/// a scalar value: one token
+pub proof fn lemma_value_scalar(name: Seq<char>, a: AVal, rest: Seq<u8>, s: MState)
+    requires
+        scalar_ok(a), state_ok(s, name),
+        spec_tag(a) != T_BEGCOLLECTION, spec_tag(a) != T_ENDCOLLECTION, 0x10 <= spec_tag(a) <= 0x4a,
+    ensures
+        m_run(spec_attr_enc(name, a) + rest, s) == m_run(rest, push_top(start_attr(s, name), seq![a])),
+{
+    reveal(m_value);
+    reveal(m_value_legal);
+    let tag = spec_tag(a);
+    let nb = utf8(name);
+    let body = scalar_body(a);
+    lemma_scalar_roundtrip(a);
+    axiom_lossy_utf8(name);
+    axiom_utf8_empty();
+    axiom_str_of(name);
+    // bytes: spec_attr_enc(name, a) + rest is the right-nested token
+    let lhs = spec_attr_enc(name, a) + rest;
+    assert(lhs =~= token_r(tag, nb, body, rest));
+    lemma_token(tag, nb, body, rest, s);
+    let nm = str_of(lossy(nb));
+    assert(nm@ == name);
+    let s1_ = start_attr(s, name);
+    let got = m_value(s, tag, nm, body);
+    let want = push_top(s1_, seq![a]);
+    assert(s1_.stack.last().push(a) =~= s1_.stack.last() + seq![a]);
+    assert(got.stack =~~= want.stack);
+    assert(got == want);
+}
+
+
+pub proof fn lemma_push_push(s: MState, a: Seq<AVal>, b: Seq<AVal>)
+    requires s.stack.len() >= 1,
+    ensures push_top(push_top(s, a), b) == push_top(s, a + b),
+{
+    let x = push_top(push_top(s, a), b);
+    let y = push_top(s, a + b);
+    assert((s.stack.last() + a) + b =~= s.stack.last() + (a + b));
+    assert(x.stack =~~= y.stack);
+}
+
+pub proof fn lemma_scalar_tag(a: AVal)
+    requires scalar_ok(a),
+    ensures 0x10 <= spec_tag(a) <= 0x4a, spec_tag(a) != T_BEGCOLLECTION, spec_tag(a) != T_ENDCOLLECTION,
+{
+}
+
+/// the values found between begCollection and endCollection for the first `k` members
+pub open spec fn member_vals(members: Seq<(String, AVal)>, k: nat) -> Seq<AVal>
+    decreases k
+{
+    if k == 0 || k > members.len() {
+        Seq::<AVal>::empty()
+    } else {
+        member_vals(members, (k - 1) as nat) + seq![AVal::Text { tag: T_MEMBERNAME, s: members[k - 1].0@ }] + vals_of(members[k - 1].1)
+    }
+}
+
+pub open spec fn is_member_name(v: AVal) -> bool {
+    v is Text && v->Text_tag == T_MEMBERNAME
+}
+
+pub proof fn lemma_pair_prefix(a: Seq<AVal>, b: Seq<AVal>, n: nat)
+    requires n <= a.len(),
+    ensures pair_fold(a + b, n) == pair_fold(a, n),
+    decreases n,
+{
+    if n > 0 {
+        lemma_pair_prefix(a, b, (n - 1) as nat);
+        assert((a + b)[n - 1] == a[n - 1]);
+    }
+}
+
+/// values that are not member names extend the member being read
+pub proof fn lemma_pair_values(a: Seq<AVal>, vs: Seq<AVal>, j: nat)
+    requires
+        j <= vs.len(),
+        pair_fold(a, a.len()).1 is Some,
+        forall|i: int| 0 <= i < vs.len() ==> !is_member_name(#[trigger] vs[i]),
+    ensures
+        pair_fold(a + vs, a.len() + j) == (pair_fold(a, a.len()).0, pair_fold(a, a.len()).1, pair_fold(a, a.len()).2 + vs.take(j as int)),
+    decreases j,
+{
+    let acc = pair_fold(a, a.len());
+    if j == 0 {
+        lemma_pair_prefix(a, vs, a.len());
+        assert(acc.2 + vs.take(0) =~= acc.2);
+    } else {
+        lemma_pair_values(a, vs, (j - 1) as nat);
+        assert((a + vs)[a.len() + j - 1] == vs[j - 1]);
+        assert(vs.take(j as int) =~= vs.take(j - 1).push(vs[j - 1]));
+        assert(acc.2 + vs.take(j as int) =~= (acc.2 + vs.take(j - 1)).push(vs[j - 1]));
+    }
+}
+
+/// the top-level values of an in-domain member value are not member names, there is at least one, and
+/// "one value: itself, several: a set" gives the value back
+pub proof fn lemma_vals_of(v: AVal)
+    requires dom_ok(v, true),
+    ensures
+        vals_of(v).len() >= 1,
+        forall|i: int| 0 <= i < vals_of(v).len() ==> !is_member_name(#[trigger] vals_of(v)[i]),
+        lov(vals_of(v)) == v,
+{
+    match v {
+        AVal::Set { elems } => {
+            assert forall|i: int| 0 <= i < elems.len() implies !is_member_name(#[trigger] elems[i]) by {
+                assert(dom_ok(elems[i], true));
+            }
+        }
+        _ => {}
+    }
+}
+
+/// after the first `k` members the accumulator holds the first k-1 members and is reading the k-th
+pub proof fn lemma_pair_members(members: Seq<(String, AVal)>, k: nat)
+    requires
+        k <= members.len(),
+        forall|i: int| 0 <= i < members.len() ==> dom_ok((#[trigger] members[i]).1, true),
+    ensures
+        k == 0 ==> pair_fold(member_vals(members, 0), 0) == (Map::<String, AVal>::empty(), None::<String>, Seq::<AVal>::empty()),
+        k > 0 ==> pair_fold(member_vals(members, k), member_vals(members, k).len())
+            == (members_map(members, (k - 1) as nat), Some(members[k - 1].0), vals_of(members[k - 1].1)),
+    decreases k,
+{
+    if k > 0 {
+        lemma_pair_members(members, (k - 1) as nat);
+        let a = member_vals(members, (k - 1) as nat);
+        let key = members[k - 1].0;
+        let nm = AVal::Text { tag: T_MEMBERNAME, s: key@ };
+        let vs = vals_of(members[k - 1].1);
+        let a1 = a + seq![nm];
+        // the member-name value closes the previous member and opens this one
+        let acc0 = pair_fold(a, a.len());
+        lemma_pair_prefix(a, seq![nm], a.len());
+        assert(a1[a.len() as int] == nm);
+        lemma_str_of_view(key);
+        let acc1 = pair_fold(a1, a1.len());
+        assert(acc1 == (pair_flush(acc0), Some(key), Seq::<AVal>::empty()));
+        if k - 1 > 0 {
+            lemma_vals_of(members[k - 2].1);
+            assert(pair_flush(acc0) == members_map(members, (k - 1) as nat));
+        } else {
+            assert(pair_flush(acc0) == members_map(members, 0));
+        }
+        // its values
+        lemma_vals_of(members[k - 1].1);
+        lemma_pair_values(a1, vs, vs.len());
+        assert(vs.take(vs.len() as int) =~= vs);
+        assert(Seq::<AVal>::empty() + vs =~= vs);
+        assert(member_vals(members, k) == a1 + vs);
+    }
+}
+
+/// endCollection over the values of all members builds the map of the members
+pub proof fn lemma_pair_map_members(members: Seq<(String, AVal)>)
+    requires forall|i: int| 0 <= i < members.len() ==> dom_ok((#[trigger] members[i]).1, true),
+    ensures pair_map(member_vals(members, members.len())) == members_map(members, members.len()),
+{
+    reveal(pair_map);
+    let n = members.len();
+    lemma_pair_members(members, n);
+    if n > 0 {
+        lemma_vals_of(members[n - 1].1);
+    }
 }
 
 } // verus!
